@@ -259,9 +259,62 @@ func (d *Driver) Apply(s Step) bool {
 		ev.Args["asset"] = asset
 		ev.Args["source"] = src
 		ev.Args["price"] = ds(px)
-		srcEnum := oracletypes.ELYS
-		_ = srcEnum
+		ev.Args["feeds"] = []any{map[string]any{"asset": asset, "source": src, "price": ds(px)}}
 		d.queue(who, ev, &oracletypes.MsgFeedPrice{Provider: d.addr(who), FeedPrice: oracletypes.FeedPrice{Asset: asset, Price: px, Source: src}})
+		return true
+
+	case "feedMulti": // one message carrying several (asset, source, price) triples: "feeds": [[asset, source, px], ...]
+		who := user
+		if who == "" {
+			who = "feeder"
+		}
+		var fps []oracletypes.FeedPrice
+		feeds := []any{}
+		arr, _ := s["feeds"].([]any)
+		for _, x := range arr {
+			t := x.([]any)
+			px := math.LegacyMustNewDecFromStr(t[2].(string))
+			fps = append(fps, oracletypes.FeedPrice{Asset: t[0].(string), Source: t[1].(string), Price: px})
+			feeds = append(feeds, map[string]any{"asset": t[0].(string), "source": t[1].(string), "price": ds(px)})
+			if t[1].(string) == "elys" {
+				d.Prices[t[0].(string)] = px
+			}
+		}
+		ev := newEvent("oracle.MsgFeedMultiplePrices", who)
+		ev.Args["feeds"] = feeds
+		d.queue(who, ev, &oracletypes.MsgFeedMultiplePrices{Creator: d.addr(who), FeedPrices: fps})
+		return true
+
+	case "setFeeder": // the feeder (de)activates itself
+		ev := newEvent("oracle.MsgSetPriceFeeder", user)
+		ev.Args["active"] = s.S("active") == "true"
+		d.queue(user, ev, &oracletypes.MsgSetPriceFeeder{Feeder: d.addr(user), IsActive: s.S("active") == "true"})
+		return true
+
+	case "delFeeder":
+		ev := newEvent("oracle.MsgDeletePriceFeeder", user)
+		d.queue(user, ev, &oracletypes.MsgDeletePriceFeeder{Feeder: d.addr(user)})
+		return true
+
+	case "govAddFeeder", "govRemoveFeeder": // governance authority, applied between blocks through the real router
+		var msg sdk.Msg
+		name := "oracle.MsgAddPriceFeeders"
+		if s.S("a") == "govAddFeeder" {
+			msg = &oracletypes.MsgAddPriceFeeders{Authority: c.gov(), Feeders: []string{d.addr(user)}}
+		} else {
+			msg, name = &oracletypes.MsgRemovePriceFeeders{Authority: c.gov(), Feeders: []string{d.addr(user)}}, "oracle.MsgRemovePriceFeeders"
+		}
+		ev := newEvent(name, "gov")
+		ev.Args["feeder"] = user
+		c.AdminEv(ev, msg)
+		return true
+
+	case "govVestInfo": // governance: MsgUpdateVestingInfo for ueden
+		msg := &committypes.MsgUpdateVestingInfo{Authority: c.gov(), BaseDenom: "ueden", VestingDenom: "uelys", NumBlocks: s.I("num"),
+			VestNowFactor: 90, NumMaxVestings: s.I("max")}
+		ev := newEvent("commitment.MsgUpdateVestingInfo", "gov")
+		ev.Args["num"], ev.Args["max"] = s.I("num"), s.I("max")
+		c.AdminEv(ev, msg)
 		return true
 
 	case "feedAll": // refresh every known price (keeps them alive under short lifetimes)
@@ -270,6 +323,11 @@ func (d *Driver) Apply(s Step) bool {
 			fps = append(fps, oracletypes.FeedPrice{Asset: as, Price: d.Prices[as], Source: "elys"})
 		}
 		ev := newEvent("oracle.MsgFeedMultiplePrices", "feeder")
+		feeds := []any{}
+		for _, fp := range fps {
+			feeds = append(feeds, map[string]any{"asset": fp.Asset, "source": fp.Source, "price": ds(fp.Price)})
+		}
+		ev.Args["feeds"] = feeds
 		d.queue("feeder", ev, &oracletypes.MsgFeedMultiplePrices{Creator: d.addr("feeder"), FeedPrices: fps})
 		return true
 
